@@ -253,6 +253,9 @@ class FilesystemOnionService(object):
             yield config.save()
         except Exception:
             _abandon_descriptor_wait(uploaded[0])
+            # Tor doesn't have this service, so the config doesn't either
+            if fhs in config.HiddenServices:
+                config.HiddenServices.remove(fhs)
             raise
         yield uploaded[0]
         return fhs
@@ -1209,6 +1212,9 @@ class FilesystemAuthenticatedOnionService(object):
             yield config.save()
         except Exception:
             _abandon_descriptor_wait(uploaded[0])
+            # Tor doesn't have this service, so the config doesn't either
+            if fhs in config.HiddenServices:
+                config.HiddenServices.remove(fhs)
             raise
         yield uploaded[0]
         return fhs
